@@ -56,7 +56,16 @@ def correspondence(ctx):
     for i in range(ctx.n(5, 30)):
         cb = CALLBACKS[i % 5]
         coin = ["bitcoin", "litecoin", "dogecoin"][i % 3]
-        scripts = lambda rr, c: GC.spk(rr, c, rr.choice(["p2pkh", "p2sh", "opreturn", "p2pk33", "multisig", "nonstd"]))
+        # a small pool of hashes shared by P2PKH and P2SH outputs (adjacent outputs often carry the SAME 20 bytes under different
+        # templates): a verdict must not depend on what the same worker thread evaluated just before
+        pool = [GC.rb(r, 20) for _ in range(3)]
+        def scripts(rr, c, pool=pool):
+            k = rr.random()
+            if k < 0.35:
+                return b"\x76\xa9\x14" + rr.choice(pool) + b"\x88\xac"
+            if k < 0.7:
+                return b"\xa9\x14" + rr.choice(pool) + b"\x87"
+            return GC.spk(rr, c, rr.choice(["p2pkh", "p2sh", "opreturn", "p2pk33", "multisig", "nonstd"]))
         blocks = GC.gen_chain(r, coin, r.randrange(2, 5), max_txs=1, big=r.choice([60, 150, 400 if ctx.thorough() else 90]), max_io=r.choice([3, 30, 200 if i % 2 else 8]), scripts=scripts)
         s = K.Scenario(coin=coin, callback=cb)
         GC.simple_layout(s, blocks, per_file=2)
